@@ -362,6 +362,13 @@ func possible(s *ast.Schema, abstract, concrete string) bool {
 }
 
 func (r *resolver) value(ds *ast.Schema, typ, field string, t *ast.Type, key string, s int, args map[string]interface{}, depth int) interface{} {
+	// naming conventions of the catalogue: null*/empty* fields always resolve to null / []
+	if depth == 0 && strings.HasPrefix(field, "null") && !t.NonNull {
+		return nil
+	}
+	if depth == 0 && strings.HasPrefix(field, "empty") && t.Elem != nil {
+		return []interface{}{}
+	}
 	n := num(key)
 	if t.Elem != nil {
 		// list
